@@ -17,6 +17,8 @@ MODULES = {
     "C15": ["contracts.externals", "contracts.types_named", "contracts.multicast"],
     "C19": ["contracts.externals", "contracts.types_named", "contracts.application"],
     "C17": ["contracts.externals", "contracts.types_named", "contracts.codec_headers", "contracts.ezsp_protocol", "contracts.ezsp", "contracts.ezsp_events"],
+    "C13": ["contracts.externals", "contracts.types_named", "contracts.application", "contracts.app_callbacks"],
+    "C12": ["contracts.externals", "contracts.types_named", "contracts.application", "contracts.ezsp", "contracts.app_send"],
     "C03": ["contracts.externals", "contracts.ash", "contracts.ash_wire"],
 }
 
